@@ -51,12 +51,21 @@ package fs
 // n for n > 0 — advances the offset by what it returned, and with n > 0 reports the end of the directory as
 // io.EOF with no entries. (Successive chunked calls therefore continue and terminate; this was a recorded known
 // finding until repaired in /repo.)
-//@ assume func newDirInfo
+//@ func newDirInfo
+//@   property C29
 //@   modifies nothing
-//@ assume func newFileInfo
+//@   opt nopanic=off
+//@   opt panics=allowed
+//@ func newFileInfo
+//@   property C29
 //@   modifies nothing
-//@ assume func newSymlinkInfo
+//@   opt nopanic=off
+//@   opt panics=allowed
+//@ func newSymlinkInfo
+//@   property C29
 //@   modifies nothing
+//@   opt nopanic=off
+//@   opt panics=allowed
 //@ func (dir).ReadDir
 //@   requires p != nil && p.pb != nil && p.offset >= 0
 //@   requires forall i int :: 0 <= i && i < len(p.pb.Directories) ==> p.pb.Directories[i] != nil
